@@ -137,3 +137,75 @@ package contracts
 //@   ensures mapHas(r.Out.Header, "X-Forwarded-Host") && mapGet(r.Out.Header, "X-Forwarded-Host") == seq[string]{r.In.Host}
 //@   ensures mapHas(r.Out.Header, "X-Forwarded-Proto") && mapGet(r.Out.Header, "X-Forwarded-Proto") == seq[string]{ite(r.In.TLS == nil, "http", "https")}
 //@   ensures forall k string :: k != "X-Forwarded-For" && k != "X-Forwarded-Host" && k != "X-Forwarded-Proto" ==> (mapHas(r.Out.Header, k) <==> old(mapHas(r.Out.Header, k))) && mapGet(r.Out.Header, k) == old(mapGet(r.Out.Header, k))
+
+//@ -- crypto/tls, net, context (used by proxyserver.serveConn) -------------------
+
+//@ -- ghost trace of one serveConn activation
+//@ ghost var lastHandshakeErr error
+//@ ghost var lastNegotiated string
+//@ ghostfield iface.closed int
+//@ ghostfield tls.Conn.tlsClosed int
+//@ ghostfield iface.ctxParent any
+//@ ghostfield iface.ctxKey any
+//@ ghostfield iface.ctxVal any
+//@ -- the Metadata bound in a context created by metadata.NewContext
+//@ pure func ctxMeta(c context.Context) *metadata.Metadata = unboxptr(metadata.Metadata, ctxVal(c))
+
+//@ func net.Conn.Close :: c -> err
+//@   trusted
+//@   assigns closed(c)
+//@   ensures closed(c) == old(closed(c)) + 1
+
+//@ func net.Conn.RemoteAddr :: c -> a
+//@   trusted
+//@   pure
+
+//@ func tls.(*Conn).Close :: c -> err
+//@   trusted
+//@   requires c != nil
+//@   assigns c.tlsClosed
+//@   ensures c.tlsClosed == old(c.tlsClosed) + 1
+
+//@ func tls.Server :: conn, config -> c
+//@   trusted
+//@   pure
+//@   ensures c != nil && fresh(c) && c.tlsClosed == 0
+
+//@ -- The TLS stack drives the wrapped connection only through its methods; (*HijackClientHelloConn).Read is
+//@ -- verified to preserve the capture invariant, so the handshake as a whole preserves it.
+//@ func tls.(*Conn).HandshakeContext :: c, ctx -> err
+//@   trusted
+//@   requires c != nil
+//@   assigns lastHandshakeErr, hack.HijackClientHelloConn.expectedLen, bytes.Buffer.view, iface.delivered
+//@   ensures lastHandshakeErr == err
+//@   ensures forall h *hack.HijackClientHelloConn :: old(inv(h)) ==> inv(h)
+
+//@ func tls.(*Conn).ConnectionState :: c -> cs
+//@   trusted
+//@   requires c != nil
+//@   assigns lastNegotiated
+//@   ensures cs.NegotiatedProtocol == lastNegotiated
+
+//@ func context.WithCancel :: parent -> ctx, cancel
+//@   trusted
+//@   pure
+//@   ensures ctx != nil && ctxParent(ctx) == parent
+
+//@ func context.WithTimeout :: parent, d -> ctx, cancel
+//@   trusted
+//@   pure
+//@   ensures ctx != nil && ctxParent(ctx) == parent
+
+//@ func context.Background :: -> ctx
+//@   trusted
+//@   pure
+//@   ensures ctx != nil
+
+//@ func context.WithValue :: parent, key, val -> ctx
+//@   trusted
+//@   pure
+//@   ensures ctx != nil && ctxParent(ctx) == parent && ctxKey(ctx) == key && ctxVal(ctx) == val
+
+//@ func context.Context.Done :: c -> ch
+//@   trusted
+//@   pure
